@@ -294,6 +294,16 @@ def rule_registry(ctx) -> None:
         raise AnalysisError(f"C03.revision-flow: only {n} revision hand-over sites found")
 
 
+def rule_roundtrip(ctx) -> None:
+    """C03.header-roundtrip: the two certificate block headers interpreted on model objects (E19): parse(export(x)) has the fields of x."""
+    from ..engines import roundtrip
+    roundtrip.check_classes(ctx, "C03.header-roundtrip", CB, [
+        ("CertBlockHeader", [{"version": "1.0", "flags": 3, "build_number": 7, "__setup1": "obj.image_length = 0x1234; obj.cert_count = 2; obj.cert_table_length = 0x300"},
+                             {"version": "1.0", "flags": 0, "build_number": 0}]),
+        ("CertificateBlockHeader", [{"format_version": "2.1", "__setup1": "obj.cert_block_size = 0x240"}]),
+    ], floor=2)
+
+
 def run(ctx) -> None:
     ctx.chk.explain("C03: the per-key hash construction (fixed-width ECC coordinates, n||e, algorithm by key type) and the v1/v2.1 table rules are extracted and evaluated; the tool "
                     "paths that share the RKHT implementation are pinned to it, independent constructions are cross-checked against it; signer independence; root key record flags "
@@ -305,6 +315,7 @@ def run(ctx) -> None:
     ctx.rule(rule_isk)
     ctx.rule(rule_wire)
     ctx.rule(rule_registry)
+    ctx.rule(rule_roundtrip)
     from ..engines import attrproto
     ctx.rule(lambda c: attrproto.check(c, "C03.ca-attribute", "ca", 4, 2))
     ctx.chk.assumptions = ["PublicKeyRsa/Ecc.export and coordinate_size are decided in C08", "AHAB/HAB SRK table constructions are decided in C06/C07",
